@@ -268,6 +268,17 @@ class PartiesEngine(Engine):
             violation = v.as_dict(step)
         except SimStall as s:
             violation = Violation('stall', 'step %d did not return: %s' % (step, s)).as_dict(step)
+        except Exception as ex:
+            import traceback
+            tb = traceback.extract_tb(ex.__traceback__)
+            inside = [f for f in tb if '/xtuml/' in f.filename or '/bridgepoint/' in f.filename or '/ply/' in f.filename]
+            if not inside:
+                raise
+            where = '%s:%d' % (inside[-1].filename.rsplit('/', 1)[-1], inside[-1].lineno)
+            op = case['ops'][step] if 0 <= step < len(case['ops']) else {}
+            violation = Violation('exception', 'step %d (%s): unexpected %s: %s at %s'
+                                  % (step, op.get('op'), type(ex).__name__, ex, where),
+                                  'exception:%s:%s' % (type(ex).__name__, op.get('op'))).as_dict(step)
         finally:
             guard.disarm()
             if saved_open is None:
